@@ -109,6 +109,8 @@ impl Tableau {
         &mut self,
         limit: i64,
     ) -> Result<OptimalTableauWithSteps, SimplexError> {
+        #[cfg(rooc_verif)]
+        verif_hooks::record_begin(self, &[]);
         let mut iteration = 0;
         let empty = vec![];
         let mut steps = vec![];
@@ -154,6 +156,8 @@ impl Tableau {
         limit: i64,
         variables_to_avoid: &[usize],
     ) -> Result<OptimalTableau, SimplexError> {
+        #[cfg(rooc_verif)]
+        verif_hooks::record_begin(self, variables_to_avoid);
         let mut iteration = 0;
         let mut stalls = 0i64;
         let mut last_value = self.current_value;
@@ -189,6 +193,8 @@ impl Tableau {
         variables_to_avoid: &[usize],
         use_bland: bool,
     ) -> Result<StepAction, SimplexError> {
+        #[cfg(rooc_verif)]
+        verif_hooks::set_rule(use_bland);
         if self.is_optimal() {
             return Ok(StepAction::Finished);
         }
@@ -313,6 +319,8 @@ impl Tableau {
         b[t] /= pivot;
         //update the basis
         in_basis[t] = h;
+        #[cfg(rooc_verif)]
+        verif_hooks::record_pivot(self, h, t);
         Ok(())
     }
     pub fn current_value(&self) -> f64 {
@@ -332,5 +340,92 @@ impl Tableau {
     }
     pub fn in_basis(&self) -> &Vec<usize> {
         &self.in_basis
+    }
+}
+
+/// Observation hooks for the external verification harness (`--cfg rooc_verif`):
+/// a thread-local sink that receives a snapshot when a solve loop starts and
+/// after every pivot. Nothing here is compiled into normal builds.
+#[cfg(rooc_verif)]
+pub mod verif_hooks {
+    use super::Tableau;
+    use std::cell::RefCell;
+
+    #[derive(Debug, Clone)]
+    pub struct Snapshot {
+        pub a: Vec<Vec<f64>>,
+        pub b: Vec<f64>,
+        pub c: Vec<f64>,
+        pub in_basis: Vec<usize>,
+        pub current_value: f64,
+    }
+
+    #[derive(Debug, Clone)]
+    pub enum SimplexEvent {
+        Begin {
+            state: Snapshot,
+            avoid: Vec<usize>,
+        },
+        Pivot {
+            entering: usize,
+            leaving_row: usize,
+            use_bland: bool,
+            state: Snapshot,
+        },
+    }
+
+    thread_local! {
+        static SINK: RefCell<Option<Vec<SimplexEvent>>> = const { RefCell::new(None) };
+        static RULE: RefCell<bool> = const { RefCell::new(false) };
+    }
+
+    /// Remembers which entering rule the current step uses.
+    pub(super) fn set_rule(use_bland: bool) {
+        RULE.with(|r| *r.borrow_mut() = use_bland);
+    }
+
+    fn snapshot(t: &Tableau) -> Snapshot {
+        Snapshot {
+            a: t.a.clone(),
+            b: t.b.clone(),
+            c: t.c.clone(),
+            in_basis: t.in_basis.clone(),
+            current_value: t.current_value,
+        }
+    }
+
+    /// Start recording on this thread (drops anything recorded before).
+    pub fn start() {
+        SINK.with(|s| *s.borrow_mut() = Some(Vec::new()));
+    }
+
+    /// Stop recording and return the events.
+    pub fn take() -> Vec<SimplexEvent> {
+        SINK.with(|s| s.borrow_mut().take().unwrap_or_default())
+    }
+
+    pub(super) fn record_begin(t: &Tableau, avoid: &[usize]) {
+        SINK.with(|s| {
+            if let Some(events) = s.borrow_mut().as_mut() {
+                events.push(SimplexEvent::Begin {
+                    state: snapshot(t),
+                    avoid: avoid.to_vec(),
+                });
+            }
+        });
+    }
+
+    pub(super) fn record_pivot(t: &Tableau, entering: usize, leaving_row: usize) {
+        let use_bland = RULE.with(|r| *r.borrow());
+        SINK.with(|s| {
+            if let Some(events) = s.borrow_mut().as_mut() {
+                events.push(SimplexEvent::Pivot {
+                    entering,
+                    leaving_row,
+                    use_bland,
+                    state: snapshot(t),
+                });
+            }
+        });
     }
 }
